@@ -59,7 +59,7 @@ Fixpoint mon_bp (W L : nat) (sc : list (stim * obs)) (enq ret : nat) : bool :=
           let ret' := ret + length (o_returned o) in
           (ret' <=? L + 2 * W + 1) && ((enq' <=? ret') || (W + L + 1 <=? ret')) && mon_bp W L rest enq' ret'
       | SResize l => if enq =? 0 then mon_bp W (n l) rest enq ret else true
-      | SAdj _ _ | SErrSub => mon_bp W L rest enq ret
+      | SAdj _ _ | SErrSub | SSib _ => mon_bp W L rest enq ret
       | _ => true
       end
   end.
